@@ -159,3 +159,9 @@ def _v41(repo, mod):
     fn = repo.func(FS, "FilesystemIsolation._is_write_mode")
     r = find_stmt(fn, lambda s: isinstance(s, ast.Return))
     return replace_node(mod, r.value, 'len([ch for ch in mode if ch in "wax+"]) > 0')
+
+
+@variant("C29", "io-open-deduplicated-away", "pynguin.utils.fs_isolation", "C29.open-bindings", "io.open skipped because it is the same function object as builtins.open (seed C29-g)")
+def _v50(repo, mod):
+    from sa.selftest.harness import text_edit
+    return text_edit(mod, "            original = getattr(module, method)\n            tracked = self._create_open_tracked(original)", "            original = getattr(module, method)\n            if method == 'open' and module is io:\n                continue\n            tracked = self._create_open_tracked(original)")
